@@ -568,3 +568,13 @@ package ice
 //@ func totalUvarintBytes
 //@   safety[C01] wrap
 //@   ensures[C01,C02,C10] n == uvlen(a) + uvlen(b) + uvlen(c) + uvlen(d)
+//@
+//@ // C16 (builder): a document counts once for every field it carries, however often the
+//@ // field name occurs in it; the per-field callback itself never touches the document counts
+//@ func (*interim).prepareDictsForDocument$1
+//@   frames[C16] s.FieldFreqs[*]
+//@
+//@ func (*interim).prepareDictsForDocument
+//@   requires[C16] s != nil && s.FieldDocs != nil && s.FieldDocs != s.FieldFreqs
+//@   loop 0 invariant[C16] forall(k, s.FieldDocs[k] == old(s.FieldDocs[k]) + ite(rangevisited(0, k), 1, 0))
+//@   ensures[C16] @once_per_document forall(k, old(s.FieldDocs[k]) <= s.FieldDocs[k] && s.FieldDocs[k] <= old(s.FieldDocs[k]) + 1)
